@@ -56,16 +56,37 @@ F = Fraction
 # ----------------------------------------------------------------------------------------------
 # value transport: {"v": exact, "t": "i"|"f"|"F"}
 # ----------------------------------------------------------------------------------------------
+class MyInt(int):
+    """an int subclass (isinstance(x, int) holds, type(x) is not int)"""
+
+
+class MyFloat(float):
+    """a float subclass"""
+
+
 def py(v, t):
+    """types: i int, f float, F Fraction, b bool (0/1), I int subclass, X float subclass"""
     q = dec(v)
-    if t == "i":
-        assert q.denominator == 1
-        return int(q)
-    if t == "f":
+    if t in ("i", "I", "b"):
+        assert q.denominator == 1 and (t != "b" or q in (0, 1))
+        return int(q) if t == "i" else MyInt(int(q)) if t == "I" else bool(q)
+    if t in ("f", "X"):
         x = float(q)
         assert Fraction(x) == q, "not exactly representable: %r" % (v,)
-        return x
+        return x if t == "f" else MyFloat(x)
     return Fraction(q)
+
+
+def fit_type(t, r):
+    """the type tag `t` if the rational r can be given that type, else "F" """
+    r = Fraction(r)
+    if t in ("i", "I"):
+        return t if r.denominator == 1 else "F"
+    if t == "b":
+        return t if r in (0, 1) else ("i" if r.denominator == 1 else "F")
+    if t in ("f", "X"):
+        return t if is_dyadic(r, 60) and abs(r.numerator) < 2 ** 53 else "F"
+    return "F"
 
 
 def dyadic(rng, big=False):
@@ -80,7 +101,13 @@ def typ_for(q, rng, allow_float=True):
         ts.append("i")
     if allow_float and q.denominator & (q.denominator - 1) == 0:
         ts += ["f", "f"]
-    return rng.choice(ts)
+    t = rng.choice(ts)
+    if rng.random() < 0.06:                      # numbers of unusual types
+        if t == "i":
+            t = "b" if q in (0, 1) and rng.random() < 0.5 else "I"
+        elif t == "f":
+            t = "X"
+    return t
 
 
 def drain(it, n):
@@ -105,23 +132,83 @@ def mc_arg(rng, vals, allow_float):
     if isinstance(vals, list):
         t = rng.choice(["f", "F", "mixed"]) if allow_float else rng.choice(["F", "mixed"])
         ts = [typ_for(v, rng, allow_float) if t == "mixed" else t for v in vals]
-        return {"strm": [enc(v) for v in vals], "ts": ts, "kind": rng.choice(["list", "iter", "Stream", "tuple"])}
+        return {"strm": [enc(v) for v in vals], "ts": ts, "kind": rng.choice(KINDS)}
     return {"num": enc(vals), "t": typ_for(vals, rng, allow_float)}
 
 
-def mc_build(a):
-    from audiolazy import Stream
-    if "num" in a:
-        return py(a["num"], a["t"])
-    xs = [py(v, t) for v, t in zip(a["strm"], a["ts"])]
-    k = a.get("kind", "list")
+KINDS = ("list", "iter", "Stream", "tuple", "gen", "deque", "sub", "thub", "iterable")
+ONE_SHOT = ("iter", "Stream", "gen", "sub")          # one object = one pass over the items
+_SUB = []
+
+
+def stream_subclass():
+    """a Stream subclass overriding __iter__ (made once, after audiolazy is importable)"""
+    if not _SUB:
+        from audiolazy import Stream
+
+        class SubStream(Stream):
+            def __iter__(self):
+                for x in Stream.__iter__(self):
+                    yield x
+        _SUB.append(SubStream)
+    return _SUB[0]
+
+
+class OnlyIterable(object):
+    """an object that is Iterable (has __iter__) and nothing else"""
+    def __init__(self, xs):
+        self.xs = xs
+
+    def __iter__(self):
+        return iter(self.xs)
+
+
+def arg_items(a):
+    """the exact items of a stream argument ({"strm"} or the compact {"cyc", "len"})"""
+    if "cyc" in a:
+        pat = a["cyc"]
+        return [pat[i % len(pat)] for i in range(a["len"])] if pat else []
+    return a["strm"]
+
+
+def arg_types(a):
+    if "cyc" in a:
+        ts = a["ts"]
+        return [ts[i % len(ts)] for i in range(a["len"])] if ts else []
+    return a["ts"]
+
+
+def is_strm(a):
+    return "strm" in a or "cyc" in a
+
+
+def build_stream(xs, k, users=1):
+    from audiolazy import Stream, thub
+    import collections
     if k == "iter":
         return iter(xs)
     if k == "Stream":
         return Stream(xs)
     if k == "tuple":
         return tuple(xs)
+    if k == "gen":
+        return (x for x in xs)
+    if k == "deque":
+        return collections.deque(xs)
+    if k == "sub":
+        return stream_subclass()(xs)
+    if k == "thub":
+        return thub(Stream(xs), users)
+    if k == "iterable":
+        return OnlyIterable(xs)
     return xs
+
+
+def mc_build(a):
+    if "num" in a:
+        return py(a["num"], a["t"])
+    xs = [py(v, t) for v, t in zip(arg_items(a), arg_types(a))]
+    return build_stream(xs, a.get("kind", "list"))
 
 
 def gen_mc(rng, tier, scale):
@@ -466,7 +553,7 @@ def shrink_num_fields(c, fields):
         q = qv(a)
         for r in (F(int(q)), F(0), F(1), F(2), q / 2):
             if r != q and abs(r) <= abs(q) + 2:
-                yield dict(c, **{k: {"v": enc(r), "t": a["t"] if (a["t"] != "i" or r.denominator == 1) else "F"}})
+                yield dict(c, **{k: {"v": enc(r), "t": fit_type(a["t"], r)}})
         if a["t"] != "F":
             yield dict(c, **{k: dict(a, t="F")})
 
@@ -780,7 +867,7 @@ def arg_vals(a):
     return [dec(a["num"])] if "num" in a else [dec(x) for x in a["strm"]]
 
 
-def gen_arg(rng, mk, n, p_stream=0.4, kinds=("list", "iter", "Stream", "tuple")):
+def gen_arg(rng, mk, n, p_stream=0.4, kinds=KINDS):
     """a modulo_counter-style argument: number or stream of mk() values"""
     if rng.random() < p_stream:
         xs = [mk() for _ in range(rng.choice([n, n + 2, max(1, n - 3)]))]
@@ -792,7 +879,7 @@ def gen_arg(rng, mk, n, p_stream=0.4, kinds=("list", "iter", "Stream", "tuple"))
     return {"num": enc(x), "t": typ_for(x, rng)}
 
 
-def float_arg(rng, lo, hi, n, p_stream=0.4, kinds=("list", "iter", "Stream", "tuple")):
+def float_arg(rng, lo, hi, n, p_stream=0.4, kinds=KINDS):
     mk = lambda: F(rng.uniform(lo, hi))
     a = gen_arg(rng, mk, n, p_stream, kinds)
     if "num" in a:
@@ -800,6 +887,9 @@ def float_arg(rng, lo, hi, n, p_stream=0.4, kinds=("list", "iter", "Stream", "tu
     else:
         a["ts"] = ["f"] * len(a["strm"])
     return a
+
+
+SKINDS = ("Stream", "Stream", "sub", "thub")       # things a float can be multiplied with
 
 
 def gen_table(rng, tier, scale):
@@ -816,12 +906,12 @@ def gen_table(rng, tier, scale):
             cycles = {"c0exp": kk}
             mk = lambda: F(rng.randint(-48, 48), rng.choice([1, 2, 4, 8, 16]))
             # freq / phase are "numbers or Streams" (they get multiplied by a float)
-            freq, phase = gen_arg(rng, mk, n, 0.4, ("Stream",)), gen_arg(rng, mk, n, 0.25, ("Stream",))
+            freq, phase = gen_arg(rng, mk, n, 0.4, SKINDS), gen_arg(rng, mk, n, 0.25, SKINDS)
         else:
             cycles = {"v": enc(F(rng.choice([1, 1, 2, 3, 0.5, 0.7]))), "t": "f"}
             if cycles["v"] in (1, 2, 3) and rng.random() < 0.5:
                 cycles["t"] = "i"
-            freq, phase = float_arg(rng, -3, 3, n, 0.4, ("Stream",)), float_arg(rng, -7, 7, n, 0.25, ("Stream",))
+            freq, phase = float_arg(rng, -3, 3, n, 0.4, SKINDS), float_arg(rng, -7, 7, n, 0.25, SKINDS)
         cases.append({"entry": "table_call", "table": [enc(x) for x in tbl], "tts": tts, "cycles": cycles,
                       "freq": freq, "phase": phase, "n": n, "exact": exact,
                       "default_phase": "num" in phase and dec(phase["num"]) == 0 and rng.random() < 0.5})
@@ -1492,6 +1582,9 @@ ENTRIES = {
                      neigh=neigh_res, classify=classify_res, request=req_res),
     "karplus": dict(gen=gen_ks, impl=impl_ks, cmp=cmp_ks, tally=tally_ks, shrink=shrink_ks, request=req_ks),
 }
+from props import c19_hist as H          # noqa: E402  (helper module; it uses the helpers above)
+ENTRIES["tl_hist"] = dict(gen=H.generate, impl=H.impl, cmp=H.compare, tally=H.tally, shrink=H.shrink,
+                          classify=H.classify, request=H.request)
 for _alias, _of in (("table_getitem", "table_call"), ("fadein", "line"), ("fadeout", "line"), ("zeros", "ones"), ("zeroes", "ones"),
                     ("impulse", "ones"), ("attack", "adsr"), ("gauss_noise", "white_noise")):
     ENTRIES[_alias] = dict(ENTRIES[_of], gen=None)
